@@ -157,3 +157,26 @@ func H_C14_FormattedAs() {
 	}
 	verifReach("C14.table.end")
 }
+
+// two events through the same formatter: what was stored for the first must survive formatting the second
+// (the stored slice must not alias memory that a later Process call reuses)
+func H_C14_two_events() {
+	eA, _, _, _, _ := symEvent()
+	eB, _, _, _, _ := symEvent()
+	refA, okA := refJSON(eA)
+	ctx := context.Background()
+	if nondetBool() {
+		f := &JSONFormatter{}
+		f.Process(ctx, eA)
+		f.Process(ctx, eB)
+	} else {
+		f := &JSONFormatterFilter{}
+		f.Process(ctx, eA)
+		f.Process(ctx, eB)
+	}
+	if okA {
+		got, ok := eA.Format(JSONFormat)
+		verifAssert(ok && string(got) == refA, "C14.stored-bytes-survive-later-events")
+		verifReach("C14.two.end")
+	}
+}
